@@ -3,7 +3,7 @@
 (a) grid shape, exhaustive: v x n = 1..4 x both scopes on a cheap real engine with n inputs, `FldExporter.write` replaced on a
     subclass instance so that only the matrix built by `write_from_scope` is captured.  Number of rows, distinct values per
     input, first/last row and a sequential checksum of the whole matrix are compared with Model/Fld.v evaluated in Coq
-    (given `int(pow(v, 1.0/n))` as Python computes it) and -- direct oracle -- with the documented k = largest integer with
+    (given `int(round(pow(v, 1.0/n)))` as Python computes it; the model runs the two integer correction loops) and -- direct oracle -- with the documented k = largest integer with
     k^n <= v computed with integers, the lexicographic order, equidistance and end points.
 (b) whole exports: engines (shipped examples and generated ones, 1-4 inputs, 1-4 outputs) x v x scope x switches x separators
     x decimals x active subsets: the text is compared byte for byte with the model (fmt = a table float -> "%.<d>f" built
@@ -66,7 +66,11 @@ Definition edge_check (c : bool * Z * nat * Z * Z) : bool :=
   | Err EInternal => Z.eqb expect (-2)
   | Err _ => false
   end.
-Definition kroot_check (c : Z * nat * Z) : bool := let '(v, n, k) := c in Z.eqb (kroot v n) k.
+Definition res_is (r : result Z) (z : Z) : bool := match r with Ok x => Z.eqb x z | Err _ => false end.
+Definition kroot_check (c : Z * nat * Z) : bool :=
+  let '(v, n, k) := c in
+  Z.eqb (kroot v n) k &&
+  forallb (fun p => res_is (resolution (fun _ _ => p) AllVariables v n) (k - 1)) [k - 1; k; k + 1; 1; 0; 2 * k + 3].
 Definition mk_engine (ins : list (string * float * float * bool * float)) (outs : list string) : engine float :=
   fld_engine (map (fun i => let '(nm, a, b, lk, v) := i in fld_input nm a b lk v) ins)
              (map (fun nm => fld_output nm PrimFloat.nan) outs).
@@ -193,7 +197,7 @@ def shape_part(ctx, fl, verdict, stats):
                     continue
                 cap.write_from_scope(eng, io.StringIO(), v, sc)
                 m = cap.captured
-                p = int(pow(v, 1.0 / n))  # the same expression as exporter.py:685
+                p = int(round(pow(v, 1.0 / n)))  # the same expression as exporter.py (start of the integer correction loops)
                 kobs = [len(set(m[:, j].tolist())) for j in range(n)]
                 want = k_doc if is_all else v
                 stats["shape_cases"] += 1
@@ -204,7 +208,7 @@ def shape_part(ctx, fl, verdict, stats):
                         root_bad.append((v, n, kobs[0], want, m.shape[0]))
                         verdict.add_violation(
                             "fld:all-variables-root",
-                            f"all variables = {v} with {n} inputs: {kobs[0]} values per input and {m.shape[0]} rows; the largest k with k^{n} <= {v} is {want} ({want**n} rows); int(pow({v}, 1/{n})) = {p}",
+                            f"all variables = {v} with {n} inputs: {kobs[0]} values per input and {m.shape[0]} rows; the largest k with k^{n} <= {v} is {want} ({want**n} rows); int(round(pow({v}, 1/{n}))) = {p}",
                             {"kind": "root", "v": v, "n": n, "got_k": kobs[0], "want_k": want, "rows": int(m.shape[0])},
                         )
                     else:
@@ -223,7 +227,7 @@ def shape_part(ctx, fl, verdict, stats):
         for v in (0, -1, -5, 1, 2):
             for sc in (S.AllVariables, S.EachVariable):
                 try:
-                    p = int(pow(v, 1.0 / n))
+                    p = int(round(pow(v, 1.0 / n)))
                 except Exception:
                     p = 0
                 try:
@@ -425,7 +429,7 @@ def text_part(ctx, fl, verdict, stats):
             text = exporter.to_string_from_scope(engine, v, S.AllVariables if is_all else S.EachVariable, active)
         ins = np.array(engine.input_values, dtype=float)
         outs = np.array(engine.output_values, dtype=float)
-        p = int(pow(v, 1.0 / n))
+        p = int(round(pow(v, 1.0 / n)))
         stats["text_cases"] += 1
         stats["keys"].add(("text", engine.name, n, is_all, v, sep, hdr, xi, xo, d, tuple(flags), text))
         stats["text_rows"] += len(ins)
@@ -448,8 +452,8 @@ def text_part(ctx, fl, verdict, stats):
             lines = lines[1:]
         if xi or xo:
             if len(lines) != math.prod(counts):
-                if is_all and kroot(v, n) != p:
-                    verdict.add_violation("fld:all-variables-root", f"{what}: {len(lines)} rows; the largest k with k^{n} <= {v} is {kroot(v, n)} but int(pow({v}, 1/{n})) = {p}", replay)
+                if is_all:
+                    verdict.add_violation("fld:all-variables-root", f"{what}: {len(lines)} rows; the largest k with k^{n} <= {v} is {kroot(v, n)}; int(round(pow({v}, 1/{n}))) = {p}", replay)
                 else:
                     verdict.add_violation("fld:row-count", f"{what}: {len(lines)} rows instead of {math.prod(counts)}", replay)
             else:
@@ -718,7 +722,7 @@ def run(ctx, build, verdict, ev):
     c["all_variables_root_mismatches"] = [{"v": v, "n": n, "values_per_input": g, "documented_k": w, "rows": r} for v, n, g, w, r in stats["root_bad"]]
     c["samples"] = stats["samples"]
     ev["assumptions"] += [
-        "int(pow(v, 1.0/n)) (libm pow + truncation) is taken from Python by evaluating the expression of exporter.py:685; the model's row count with that value is compared with the real export",
+        "int(round(pow(v, 1.0/n))) (libm pow + rounding) is taken from Python by evaluating the expression of exporter.py; it is only the starting point of the integer correction loops, which the model runs itself (C18_all_variables_k holds for every starting point); the model's row count is compared with the real export",
         "number formatting: the model's fmt is a table value -> '%.<d>f' % value built with Python's formatting for the values the implementation produced; the model must produce bit-identical values to find them",
         "the engine's outputs for the batch are taken from the implementation (engine.output_values after the export) and handed to the model only if its input matrix is bit-identical; the engine itself is C01/C02",
         "reader contents are ASCII; separators contain no '%' (numpy.savetxt builds a %-format out of the separator)",
